@@ -72,6 +72,26 @@ def run(facts, tier):
         k.missing_anchor("a function of jaq_std::time that constructs instants (Timestamp::from_* / DateTime::new)")
     rules.append(k.finish())
 
+    # R20.5 the fraction of a second is read as a whole
+    f5 = Rule("R20.5", "the sub-second part of an instant is read with the whole-fraction accessors (`subsec_nanosecond`, `as_microsecond` ..), never with the component accessors "
+              "`millisecond()` / `microsecond()` / `nanosecond()`, each of which is only one 0..999 digit group: testing or adding one of those drops fractions such as .5", floor=2)
+    whole = comp = 0
+    for c, j in facts.all_mir():
+        if not MOD.match(j["def"]):
+            continue
+        b = Body(j)
+        for i, t in b.calls():
+            callee = Body.callee(t) or ""
+            if re.search(r"^jiff::.*::(subsec_nanosecond|as_microsecond|as_millisecond|as_nanosecond|subsec_microsecond|subsec_millisecond)$", callee):
+                whole += 1
+                f5.examined((j["def"], callee, t["sp"]), True, {"fn": j["def"], "reads_fraction_with": callee.split("::")[-1]})
+            elif re.search(r"^jiff::(civil::(datetime::DateTime|time::Time)|zoned::Zoned)::(millisecond|microsecond|nanosecond)$", callee):
+                comp += 1
+                f5.violate(f"component/{callee.split('::')[-1]}", f"`{j['def']}` reads the sub-second part with `{callee}`, which is only one three-digit group of the fraction (0..999): fractions whose other groups carry the value (0.5 s = 500 ms, 0 us) are lost", where=t["sp"])
+    if not whole:
+        f5.missing_anchor("a whole-fraction accessor in jaq_std::time")
+    rules.append(f5.finish())
+
     explanation = ("Calendar correctness and inversion are value-level and not decided. Decided on jaq_std::time: numeric discipline of everything computed from user numbers (shared taint engine), "
                    "error discipline towards the calendar library (who-may-call), and that raw instant constructors are confined to the conversion kernels.")
     return finish("C20", "other", rules, t0, tier, explanation, ["jiff rejects out-of-range instants (Timestamp::from_* / DateTime::new return Err)", "taint propagation stops at unknown calls"])
